@@ -456,6 +456,8 @@ def check_forget(ck, cm: CacheModel, rule="C06.R5"):
 
 
 def check(ck):
+    from .memo import check_new_memo_tables
+    ck.run(check_new_memo_tables, ck, "C06.M1", ('storage_base',))
     cm = CacheModel(ck)
     ck.run(check_accounting, ck, cm)
     ck.run(check_budget, ck, cm)
